@@ -1159,4 +1159,63 @@ theorem reachable_idle {cfg : Cfg} {s : State} (h : Reachable cfg s) : s.idle = 
   | step _ hs ih => exact idle_step hs ih
 
 
+/-! ### `enabled` characterises the transitions -/
+
+/-- a worker about to pop holds the mutex and has seen a non-empty queue -/
+def BusyIncQ (s : State) : Prop := ∀ w, (getT s.thr w).pc = .wBusyInc → s.queue ≠ []
+
+theorem busyIncQ_step {cfg : Cfg} {s : State} {t c : Nat} {o} (h : step cfg s t c = some o) (hb : InvB cfg s)
+    (hq : BusyIncQ s) : BusyIncQ o.st := by
+  have hm := hb.mutex
+  unfold BusyIncQ at hq ⊢
+  pool_step_cases h
+  all_goals (
+    have hlt := lt_of_getElem? ‹s.thr[t]? = some _›
+    have hth := getT_of_getElem? ‹s.thr[t]? = some _›
+    intro w
+    have hqw := hq w
+    have hmw := hm w
+    have hmt := hm t
+    simp only [setThr_thr, getT_set]
+    by_cases hut : t = w
+    · subst hut; simp_all
+      all_goals (try (rcases mainScriptPc_cases cfg with h' | h' | h' <;> simp_all; done))
+      all_goals (try (subst hth; unfold endOfScript; cases hrole : (getT s.thr t).role <;> simp_all; done))
+      all_goals (try (subst hth; unfold endOfScript; rcases mainJoinPc_cases cfg with h' | h' <;> cases hrole : (getT s.thr t).role <;> simp_all; done))
+    · simp only [hut, false_and, if_false]
+      intro h1
+      simp_all)
+
+theorem reachable_busyIncQ {cfg : Cfg} {s : State} (h : Reachable cfg s) : BusyIncQ s := by
+  induction h with
+  | init =>
+    intro w hp
+    rcases getT_init_pc cfg w with h | h <;> rw [h] at hp <;> simp at hp
+  | step hr hs ih => exact busyIncQ_step hs (reachable_invB hr) ih
+
+/-- **`enabled` is exactly "can take a step"** (in reachable states): an enabled thread has a transition. -/
+theorem enabled_step {cfg : Cfg} {s : State} (h : Reachable cfg s) {t : Nat} (c : Nat)
+    (he : enabled cfg s t = true) : ∃ o, step cfg s t c = some o := by
+  have hb := reachable_invB h
+  have hq := reachable_busyIncQ h t
+  have hcall : ∀ k cp, (getT s.thr t).pc = .call k cp → ∃ a, (script cfg (getT s.thr t))[k]? = some a ∧ cpcOk a cp = true :=
+    fun k cp hp => callOk_call (hb.call t) hp
+  unfold enabled at he
+  unfold step
+  cases hth : s.thr[t]? with
+  | none => simp [hth] at he
+  | some th =>
+    have hgt := getT_of_getElem? hth
+    rw [hgt] at hq hcall
+    simp only [hth] at he ⊢
+    cases hp : th.pc <;> simp [hp, out] at he hq hcall ⊢
+    all_goals (try (simp_all; done))
+    all_goals (try (repeat' split) <;> simp_all <;> done)
+    -- inside a call: the sub-pc belongs to the call, so the matching branch exists
+    rename_i k cp
+    obtain ⟨a, ha, hok⟩ := hcall
+    simp only [ha]
+    cases cp <;> cases a <;> simp at hok he ⊢ <;> (try (repeat' split)) <;> simp_all
+
+
 end TlxVerif.C10
